@@ -122,9 +122,21 @@ package updog
 //@ pure sem(x Expression, idx *Index) iset := semG(x, gcols(idx.values), idx.nextRowID)
 //@ pure semOfKey(k uint64, idx *Index) iset := semKG(k, gcols(idx.values), idx.nextRowID)
 
+// every column an expression tests occurs in the schema (otherwise evaluation is an error, C01); the key version is
+// part of the same no-collision assumption as key_determines_meaning
+//@ pure colsKnown(x Expression, sch *schema) bool reads ExprEqual.Column, ExprNot.Expr, ExprAnd.Exprs, ExprOr.Exprs, []Expression, schema.Columns, dom[string]*column
+//@ pure colsKnownK(k uint64, sch *schema) bool reads ExprEqual.Column, ExprNot.Expr, ExprAnd.Exprs, ExprOr.Exprs, []Expression, schema.Columns, dom[string]*column
+//@ axiom ck_eq: forall x Expression, sch *schema :: { colsKnown(x, sch) } typeof(x) == ptrtag(ExprEqual) ==> (colsKnown(x, sch) <==> (x.(*ExprEqual).Column in sch.Columns))
+//@ axiom ck_not: forall x Expression, sch *schema :: { colsKnown(x, sch) } typeof(x) == ptrtag(ExprNot) ==> (colsKnown(x, sch) <==> colsKnown(x.(*ExprNot).Expr, sch))
+//@ axiom ck_and: forall x Expression, sch *schema :: { colsKnown(x, sch) } typeof(x) == ptrtag(ExprAnd) ==>
+//@    (colsKnown(x, sch) <==> (forall j idx(x.(*ExprAnd).Exprs) :: colsKnown(x.(*ExprAnd).Exprs[j], sch)))
+//@ axiom ck_or: forall x Expression, sch *schema :: { colsKnown(x, sch) } typeof(x) == ptrtag(ExprOr) ==>
+//@    (colsKnown(x, sch) <==> (forall j idx(x.(*ExprOr).Exprs) :: colsKnown(x.(*ExprOr).Exprs[j], sch)))
+//@ axiom key_determines_columns: forall x Expression, sch *schema :: { colsKnownK(keySpec(x), sch) } wf(x) ==> (colsKnownK(keySpec(x), sch) <==> colsKnown(x, sch))
+
 //@ pure cachedBM(c Cache, k uint64) *roaring.Bitmap := (typeof(c) == ptrtag(LRUCache)) ? ((k in c.(*LRUCache).entries) ? item(c.(*LRUCache).entries[k]).bm : nil) : nil
 //@ pred CacheSem(idx *Index) := forall k uint64 :: cachedBM(idx.cache, k) != nil ==>
-//@      cachedBM(idx.cache, k).view == semOfKey(k, idx) && subset(cachedBM(idx.cache, k).view, univ(idx.nextRowID))
+//@      cachedBM(idx.cache, k).view == semOfKey(k, idx) && subset(cachedBM(idx.cache, k).view, univ(idx.nextRowID)) && colsKnownK(k, idx.schema)
 
 // ---------------------------------------------------------------------------------------------------------------
 // Cache interface (C03/C04): closed world of cache implementations — nullCache and LRUCache.
@@ -220,6 +232,7 @@ package updog
 //@   ensures (err == nil) ==> bm != nil
 //@   ensures (err != nil) ==> bm == nil
 //@   ensures [C01,C03] result_is_the_meaning: err == nil ==> bm.view == sem(e, idx) && subset(bm.view, univ(idx.nextRowID))
+//@   ensures [C01] unknown_column_is_an_error: err == nil ==> colsKnown(e, idx.schema)
 
 //@ interface Expression.cacheKey(e) (result)
 //@   requires wf(e)
@@ -231,7 +244,7 @@ package updog
 //@   loop 1
 //@     invariant IdxInv(idx) && wf(e)
 //@     invariant forall j idx(elems) :: elems[j] != nil && elems[j].view == sem(e.Exprs[j], idx) && subset(elems[j].view, univ(idx.nextRowID))
-//@     invariant forall j idx(e.Exprs) :: j < len(elems) ==> elems[j].view == sem(e.Exprs[j], idx)
+//@     invariant forall j idx(e.Exprs) :: j < len(elems) ==> elems[j].view == sem(e.Exprs[j], idx) && colsKnown(e.Exprs[j], idx.schema)
 //@     invariant arr(elems) == nil || !(arr(elems) in old($alloc))
 //@     invariant 0 <= $i && $i <= len(e.Exprs) && len(elems) == $i
 //@     decreases len(e.Exprs) - $i
@@ -240,7 +253,7 @@ package updog
 //@   loop 1
 //@     invariant IdxInv(idx) && wf(e)
 //@     invariant forall j idx(elems) :: elems[j] != nil && elems[j].view == sem(e.Exprs[j], idx) && subset(elems[j].view, univ(idx.nextRowID))
-//@     invariant forall j idx(e.Exprs) :: j < len(elems) ==> elems[j].view == sem(e.Exprs[j], idx)
+//@     invariant forall j idx(e.Exprs) :: j < len(elems) ==> elems[j].view == sem(e.Exprs[j], idx) && colsKnown(e.Exprs[j], idx.schema)
 //@     invariant arr(elems) == nil || !(arr(elems) in old($alloc))
 //@     invariant 0 <= $i && $i <= len(e.Exprs) && len(elems) == $i
 //@     decreases len(e.Exprs) - $i
@@ -351,6 +364,7 @@ package updog
 //@   ensures [C14] err == nil ==> result != nil
 //@   ensures [C14,C04] IdxInv(idx) && idx.mtx.held == 0
 //@   ensures [C01,C03] count_is_number_of_rows_satisfying_the_expression: err == nil ==> result.Count == card(sem(q.Expr, idx))
+//@   ensures [C01] unknown_column_is_an_error: err == nil ==> colsKnown(q.Expr, idx.schema)
 //@   ensures [C02] unknown_group_by_column_is_an_error: err == nil ==> (forall j idx(q.GroupBy) :: (q.GroupBy[j] in idx.schema.Columns))
 //@   ensures [C02] no_group_by_no_groups: err == nil && len(q.GroupBy) == 0 ==> len(result.Groups) == 0
 //@   ensures [C02] one_field_per_listed_column: err == nil ==> (forall g idx(result.Groups) :: len(result.Groups[g].Fields) == len(q.GroupBy))
